@@ -4,6 +4,7 @@ import json
 import math
 import os
 from .common import *
+import struct
 
 PRIM = 'protocol/primitives.py'
 MSGS = 'protocol/messages.py'
@@ -96,6 +97,10 @@ def safe_eval(e: ast.AST, env: dict):
         return e.value
     if isinstance(e, ast.Name) and e.id in env:
         return env[e.id]
+    if isinstance(e, ast.Name) and e.id in env.get('__sa__', {}) and env['__sa__'][e.id] is not None:
+        return safe_eval(env['__sa__'][e.id], env)
+    if isinstance(e, ast.Call) and call_name(e) == 'len' and len(e.args) == 1 and '__payload__' in env and unparse(e.args[0]) in env['__payload__']:
+        return env['__len__']
     if isinstance(e, ast.UnaryOp) and isinstance(e.op, ast.USub):
         return -safe_eval(e.operand, env)
     if isinstance(e, ast.BinOp):
@@ -224,15 +229,45 @@ def run(eng: Engine, ck: Check):
     for cname, fam in FAMILIES.items():
         ci = repo.cls(cname, MSGS)
         for m in ci.methods.values():
-            src = unparse(m.node)
             w = 'uint8' if fam in ('peer-init', 'distributed') else 'uint32'
             side = 'Request' if m.name == 'deserialize_request' else 'Response'
-            ok = f'{w}.deserialize(4, message)' in src and f"getattr(msg_class, '{side}', None)" in src and '.MESSAGE_ID == msg_id' in src and \
-                '.deserialize(0, message)' in src and 'raise UnknownMessageError' in src and '__subclasses__()' in src
+            msgp = [p_ for p_ in m.params if p_ not in ('cls', 'self')][0]
+            facts = {}
+            rd = pfirst(m.node, f'$_, $id = {w}.deserialize(4, {msgp})')
+            facts[f'reads the code as {w} at offset 4'] = rd is not None
+            idv = rd[1]['id'] if rd else '?'
+            facts[f'looks up the nested {side} class'] = phas(m.node, f"getattr($c, '{side}', $$)") or phas(m.node, f'$c.{side}')
+            facts['iterates the direct subclasses'] = phas(m.node, '$_.__subclasses__()')
+            cmpn = [n for n, bd in pfind(m.node, f'$r.MESSAGE_ID == {idv}')]
+            facts['compares MESSAGE_ID with the code'] = bool(cmpn)
+            rets = [n for n in walk_local(m.node) if isinstance(n, ast.Return) and n.value is not None
+                    and pat.match(n.value, pat.compile_pattern(f'$r.deserialize(0, {msgp})')[0]) is not None]
+            facts['parses the chosen class from offset 0'] = bool(rets) and all(
+                any(pol and any(x is e or x in list(ast.walk(e)) for x in cmpn) for e, pol, _ in eng.guards_at(m, r)) for r in rets)
+            raises = [n for n in walk_local(m.node) if isinstance(n, ast.Raise) and n.exc is not None and 'UnknownMessageError' in unparse(n.exc)]
+            # every way out of the dispatcher is a parse of the matched class or UnknownMessageError
+            others = [n for n in walk_local(m.node) if isinstance(n, ast.Return) and n not in rets]
+            facts['raises UnknownMessageError when no class matches'] = bool(raises) and not others and not eng.falls_off_end(m)
+            bad = [k for k, v in facts.items() if not v]
             ck.ob('R-C01-WELLFORMED', m, m.node, f'{cname}.{m.name} reads the code ({w} at offset 4), picks the {side} class with that MESSAGE_ID, parses from offset 0, '
-                  'raises UnknownMessageError otherwise', ok, '', construct=f'{cname}.{m.name} dispatcher')
+                  'raises UnknownMessageError otherwise', not bad, f'not established: {bad}', construct=f'{cname}.{m.name} dispatcher')
 
     # ---- R-C01-PRIMSYM
+    def expanded_effects(m):
+        """Returned values and expression statements of a small codec method, with single-assignment locals inlined."""
+        out = []
+        for n in walk_local(m.node):
+            if isinstance(n, ast.Return) and n.value is not None:
+                out.append(('return', expand_aliases(m, n.value, depth=4)))
+            elif isinstance(n, ast.Expr) and not isinstance(n.value, ast.Constant):
+                out.append(('expr', expand_aliases(m, n.value, depth=4)))
+            elif isinstance(n, ast.AugAssign):
+                out.append(('aug', n))
+        return out
+    OWN = ('self', 'cls', 'type(self)')
+
+    def own_struct(bd, cname):
+        return bd.get('c') in OWN + (cname,)
     for name, fmt in SCALARS.items():
         ci = repo.find_cls(name, PRIM)
         if ci is None:
@@ -242,17 +277,57 @@ def run(eng: Engine, ck: Check):
             if m is None:
                 ck.ob('R-C01-PRIMSYM', ci, ci.node, f'{name}.{mn} exists', False, 'missing', construct=f'{name}.{mn}')
                 continue
-            src = unparse(m.node)
             if name == 'ipaddr':
                 continue
-            uses = ('self.STRUCT' in src) or ('cls.STRUCT' in src)
-            ok = uses and ('.pack(self)' in src if mn != 'deserialize' else ('unpack_from(data, offset=pos)' in src and 'pos + cls.STRUCT.size' in src))
-            ck.ob('R-C01-PRIMSYM', m, m.node, f'{name}.{mn} uses the class STRUCT ({fmt}); the reader advances by its size', ok, src[:120], construct=f'{name}.{mn} struct')
+            eff = expanded_effects(m)
+            why = ''
+            if mn == 'serialize':
+                ok = any(k == 'return' and any(own_struct(bd, name) and bd['v'] in ('self', 'int(self)', 'bool(self)')
+                                               for _, bd in [(0, pat.match(e, pat.compile_pattern('$c.STRUCT.pack($v)')[0]) or {})]) for k, e in eff)
+                why = 'does not return <own class>.STRUCT.pack(self)'
+            elif mn == 'serialize_into':
+                bufp = [p_ for p_ in m.params if p_ != 'self'][0]
+                ok = any(k == 'expr' and any(own_struct(bd, name) and bd['v'] in ('self', 'int(self)', 'bool(self)')
+                                             for _, bd in pfind(e, f'{bufp}.extend($c.STRUCT.pack($v))')) for k, e in eff) or \
+                    any(k == 'expr' and phas(e, f'{bufp}.extend(self.serialize())') for k, e in eff) or \
+                    any(k == 'aug' and isinstance(e.op, ast.Add) and unparse(e.target) == bufp and
+                        (phas(e.value, 'self.serialize()') or any(own_struct(bd, name) for _, bd in pfind(e.value, '$c.STRUCT.pack(self)'))) for k, e in eff)
+                why = 'does not append <own class>.STRUCT.pack(self) to the buffer'
+            else:
+                posp, datap = [p_ for p_ in m.params if p_ != 'cls'][:2]
+                rets = [e for k, e in eff if k == 'return']
+                ok = bool(rets)
+                for e in rets:
+                    if not (isinstance(e, ast.Tuple) and len(e.elts) == 2):
+                        ok = False
+                        continue
+                    adv = pat.match(e.elts[0], pat.compile_pattern(f'num({posp} + $c.STRUCT.size)')[0])
+                    adv_ok = (adv is not None and own_struct(adv, name)) or \
+                        (isinstance(e.elts[0], ast.BinOp) and isinstance(e.elts[0].op, ast.Add) and unparse(e.elts[0].left) == posp
+                         and const(e.elts[0].right) == struct.calcsize(fmt))
+                    val = pat.match(e.elts[1], pat.compile_pattern(f'$c.STRUCT.unpack_from({datap}, {posp})[0]')[0])
+                    ok = ok and adv_ok and val is not None and own_struct(val, name)
+                why = 'does not return (pos + STRUCT.size, STRUCT.unpack_from(data, pos)[0]) for its own STRUCT'
+            ck.ob('R-C01-PRIMSYM', m, m.node, f'{name}.{mn} uses the class STRUCT ({fmt}); the reader advances by its size', ok, why, construct=f'{name}.{mn} struct')
     ip = repo.cls('ipaddr', PRIM)
-    srcs = {k: unparse(v.node) for k, v in ip.methods.items()}
-    ok = 'reversed(ip_b)' in srcs.get('serialize', '') and 'reversed(ip_b)' in srcs.get('serialize_into', '') and 'reversed(value)' in srcs.get('deserialize', '') and \
-        'pos + 4' in srcs.get('deserialize', '') and 'inet_aton' in srcs.get('serialize', '') and 'inet_ntoa' in srcs.get('deserialize', '')
-    ck.ob('R-C01-PRIMSYM', ip, ip.node, 'ipaddr: 4 bytes, byte-reversed on both the writer and the reader side', ok, '', construct='ipaddr symmetric')
+    facts = {}
+    for mn in ('serialize', 'serialize_into'):
+        m = ip.methods.get(mn)
+        eff = expanded_effects(m) if m else []
+        facts[f'{mn}: the packed address bytes are reversed'] = any(
+            phas(e, 'reversed($_.inet_aton(self))') or phas(e, 'reversed(inet_aton(self))') or phas(e, '$_.inet_aton(self)[::-1]') or
+            (mn == 'serialize_into' and phas(e, '$_.extend(self.serialize())')) for k, e in eff if k != 'aug')
+    m = ip.methods.get('deserialize')
+    if m is not None:
+        posp, datap = [p_ for p_ in m.params if p_ != 'cls'][:2]
+        rets = [e for k, e in expanded_effects(m) if k == 'return']
+        facts['deserialize: reads 4 bytes at pos, reverses them, advances by 4'] = bool(rets) and all(
+            isinstance(e, ast.Tuple) and len(e.elts) == 2 and
+            (pat.match(e.elts[0], pat.compile_pattern(f'num({posp} + 4)')[0]) is not None or pat.match(e.elts[0], pat.compile_pattern(f'num({posp} + $c.STRUCT.size)')[0]) is not None) and
+            (phas(e.elts[1], '$_.inet_ntoa(bytes(reversed($v)))') or phas(e.elts[1], '$_.inet_ntoa($v[::-1])') or phas(e.elts[1], '$_.inet_ntoa(bytes($v[::-1]))')) and
+            (phas(e.elts[1], f'{datap}[{posp}:num({posp} + 4)]') or phas(e.elts[1], f'$c.STRUCT.unpack_from({datap}, {posp})')) for e in rets)
+    bad = [k for k, v in facts.items() if not v]
+    ck.ob('R-C01-PRIMSYM', ip, ip.node, 'ipaddr: 4 bytes, byte-reversed on both the writer and the reader side', not bad, f'not established: {bad}', construct='ipaddr symmetric')
     for name in ('string', 'bytearr'):
         ci = repo.cls(name, PRIM)
         okw = True
@@ -262,26 +337,52 @@ def run(eng: Engine, ck: Check):
                     isinstance(expand_aliases(m, x.args[0]), ast.Call) and call_name(expand_aliases(m, x.args[0])) == 'len']
             okw = okw and len(lens) == 1
         d = ci.methods['deserialize']
-        hdr = [n for n in walk_local(d.node) if isinstance(n, ast.Assign) and isinstance(n.targets[0], ast.Tuple) and
-               unparse(n.value) == f'uint32.deserialize({d.params[1]}, {d.params[2]})']
+        posp, datap = [p_ for p_ in d.params if p_ != 'cls'][:2]
+        hdr = pfind(d.node, f'$pa, $ln = uint32.deserialize({posp}, {datap})')
         okr = len(hdr) == 1
+        ln = None
         if okr:
-            pa, ln = (unparse(t) for t in hdr[0].targets[0].elts)
+            pa, ln = hdr[0][1]['pa'], hdr[0][1]['ln']
+            endp = pat.compile_pattern(f'num({pa} + {ln})')[0]
             for r in [n for n in walk_local(d.node) if isinstance(n, ast.Return)]:
                 first = expand_aliases(d, r.value.elts[0]) if isinstance(r.value, ast.Tuple) else None
-                okr = okr and first is not None and unparse(first).replace(' ', '') == f'{pa}+{ln}'
-            sl = [n for n in walk_local(d.node) if isinstance(n, ast.Subscript) and isinstance(n.slice, ast.Slice) and unparse(n.value) == d.params[2]]
-            okr = okr and len(sl) == 1 and unparse(sl[0].slice.lower) == pa and unparse(expand_aliases(d, sl[0].slice.upper)).replace(' ', '') == f'{pa}+{ln}'
+                okr = okr and first is not None and pat.match(first, endp) is not None
+            sl = [n for n in walk_local(d.node) if isinstance(n, ast.Subscript) and isinstance(n.slice, ast.Slice) and unparse(n.value) == datap]
+            okr = okr and len(sl) == 1 and sl[0].slice.lower is not None and sl[0].slice.upper is not None and unparse(sl[0].slice.lower) == pa and \
+                pat.match(expand_aliases(d, sl[0].slice.upper), endp) is not None
         ck.ob('R-C01-PRIMSYM', ci, ci.node, f'{name}: uint32 length prefix (= len of the payload) written and read, reader consumes exactly `length` bytes after it',
               okw and okr, f'writer ok: {okw}; reader ok: {okr}', construct=f'{name} length prefix')
-    st = repo.cls('string', PRIM)
-    ok = "len(value) != length" in unparse(st.methods['deserialize'].node) and 'raise' in unparse(st.methods['deserialize'].node)
-    ck.ob('R-C01-PRIMSYM', st, st.node, 'string: a short read is rejected', ok, '', construct='string short read')
+        if name == 'string':
+            short = [r for r in walk_local(d.node) if isinstance(r, ast.Raise) and any(
+                ln is not None and mentions_name(e, ln) and any(call_name(x) == 'len' for x in ast.walk(e) if isinstance(x, ast.Call))
+                for e, pol, _ in eng.guards_at(d, r))]
+            ck.ob('R-C01-PRIMSYM', ci, ci.node, 'string: a short read is rejected (raise when the slice is not `length` bytes long)', bool(short), '',
+                  construct='string short read')
     ar = repo.cls('array', PRIM)
-    si, d = unparse(ar.methods['serialize_into'].node), unparse(ar.methods['deserialize'].node)
-    ok = 'uint32(len(self)).serialize_into(buffer)' in si and 'uint32.deserialize(pos, data)' in d and 'for _ in range(array_len)' in d and \
-        'element_type.deserialize' in d and 'element_type(value).serialize_into(buffer)' in si and 'value.serialize_into(buffer)' in si
-    ck.ob('R-C01-PRIMSYM', ar, ar.node, 'array: uint32 count, then `count` elements with the element type codec on both sides', ok, '', construct='array codec')
+    m = ar.methods['serialize_into']
+    bufp, etp = [p_ for p_ in m.params if p_ != 'self'][:2]
+    facts = {}
+    facts['writer: uint32 count = len(self)'] = phas(m.node, f'uint32(len(self)).serialize_into({bufp})')
+    loops = [n for n in walk_local(m.node) if isinstance(n, ast.For) and unparse(n.iter) == 'self' and isinstance(n.target, ast.Name)]
+    facts['writer: every element serialised with the element type codec'] = bool(loops) and all(
+        phas(l_, f'{l_.target.id}.serialize_into({bufp})') or phas(l_, f'{etp}({l_.target.id}).serialize_into({bufp})') for l_ in loops) and \
+        any(phas(l_, f'{etp}({l_.target.id}).serialize_into({bufp})') for l_ in loops)
+    d = ar.methods['deserialize']
+    posp, datap, detp = [p_ for p_ in d.params if p_ != 'cls'][:3]
+    hdr = pfind(d.node, f'{posp}, $n = uint32.deserialize({posp}, {datap})')
+    facts['reader: uint32 count'] = len(hdr) == 1
+    if hdr:
+        nvar = hdr[0][1]['n']
+        rl = [n for n in walk_local(d.node) if isinstance(n, ast.For) and pat.match(n.iter, pat.compile_pattern(f'range({nvar})')[0]) is not None]
+        ok = len(rl) == 1
+        if ok:
+            el = [(n, bd) for st in rl[0].body for n, bd in pfind(st, f'{posp}, $item = $f({posp}, {datap})')]
+            ok = len(el) == 1 and unparse(expand_aliases(d, ast.parse(el[0][1]['f'], mode='eval').body)) == f'{detp}.deserialize' and \
+                phas(rl[0], f"$items.append({el[0][1]['item']})")
+        facts['reader: exactly `count` elements parsed with the element type codec, position threaded through'] = ok
+    bad = [k for k, v in facts.items() if not v]
+    ck.ob('R-C01-PRIMSYM', ar, ar.node, 'array: uint32 count, then `count` elements with the element type codec on both sides', not bad, f'not established: {bad}',
+          construct='array codec')
 
     # ---- R-C01-HANDCODEC
     typ_of_struct = {'I': 'uint32', 'B': 'uint8', 'H': 'uint16', 'Q': 'uint64', 'i': 'int32', '?': 'boolean'}
@@ -341,6 +442,15 @@ def run(eng: Engine, ck: Check):
             s = unparse(e)
             if isinstance(e, ast.UnaryOp) and isinstance(e.op, ast.Not):
                 return not truth(e.operand)
+            if isinstance(e, ast.BoolOp):
+                vals = (truth(v) for v in e.values)      # lazily: short-circuit like Python does
+                return all(vals) if isinstance(e.op, ast.And) else any(vals)
+            if isinstance(e, ast.Compare) and isinstance(e.ops[0], ast.NotIn) and 'metadata' in s:
+                return not {'optional': opt, 'if_true': cond == 'if_true', 'if_false': cond == 'if_false'}[const(e.left)]
+            if isinstance(e, ast.Compare) and isinstance(e.ops[0], ast.IsNot) and is_none_const(e.comparators[0]):
+                return present
+            if isinstance(e, ast.Constant):
+                return bool(e.value)
             if isinstance(e, ast.Compare) and isinstance(e.ops[0], ast.In) and 'metadata' in s:
                 k = const(e.left)
                 return {'optional': opt, 'if_true': cond == 'if_true', 'if_false': cond == 'if_false'}[k]
@@ -397,15 +507,50 @@ def run(eng: Engine, ck: Check):
 
     # ---- R-C01-FRAME
     md = repo.cls('MessageDataclass', PRIM)
-    si = unparse(md.methods['serialize_into'].node)
-    ok = 'uint32(len(message_id) + len(message)).serialize_into(buffer)' in si and si.index('serialize_into(buffer)') < si.index('buffer.extend(message_id)') < si.index('buffer.extend(message)')
-    ck.ob('R-C01-FRAME', md.methods['serialize_into'], md.methods['serialize_into'].node, 'the length prefix is len(code) + len(body), followed by exactly those bytes', ok, '',
-          construct='frame length')
-    ok = 'message = bytearray(zlib.compress(message))' in si and si.index('zlib.compress') < si.index('uint32(len(message_id) + len(message))')
-    ck.ob('R-C01-FRAME', md.methods['serialize_into'], md.methods['serialize_into'].node, 'compression happens before the length is computed', ok, '', construct='compress before length')
-    de = unparse(md.methods['deserialize'].node)
-    ok = 'type(cls.MESSAGE_ID).deserialize(pos, message)' in de and 'if message_id != cls.MESSAGE_ID' in de and 'raise ValueError' in de and 'zlib.decompress(message[pos:])' in de
-    ck.ob('R-C01-FRAME', md.methods['deserialize'], md.methods['deserialize'].node, 'the reader checks the code against MESSAGE_ID (with its width) and decompresses the rest', ok, '',
+    msi = md.methods['serialize_into']
+    bufp = [p_ for p_ in msi.params if p_ != 'self'][0]
+
+    def pos_of(n):
+        return (n.lineno, n.col_offset)
+    lenc = pfind(msi.node, f'uint32(num(len($id) + len($body))).serialize_into({bufp})')
+    facts = {}
+    facts['length prefix = uint32(len(code) + len(body)) written to the buffer'] = len(lenc) == 1
+    if len(lenc) == 1:
+        n_len, bd = lenc[0]
+        idv, bodyv = bd['id'], bd['body']
+        sa_ = single_assignments(msi)
+        # which of the two is the code: the one that is MESSAGE_ID.serialize()
+        if not (idv in sa_ and sa_[idv] is not None and phas(sa_[idv], 'self.MESSAGE_ID.serialize()')):
+            idv, bodyv = bodyv, idv
+        facts['the code is self.MESSAGE_ID serialised with its own width'] = idv in sa_ and sa_[idv] is not None and phas(sa_[idv], 'self.MESSAGE_ID.serialize()')
+        facts['the body is what the field driver produced'] = any(
+            isinstance(x.func, ast.Attribute) and x.func.attr == 'serialize_into' and isinstance(x.func.value, ast.Call) and call_name(x.func.value) == 'super'
+            and x.args and unparse(x.args[0]) == bodyv for x in calls_in(msi.node))
+        ext = [(n, bd2['x']) for n, bd2 in pfind(msi.node, f'{bufp}.extend($x)')] + \
+              [(n, unparse(n.value)) for n in walk_local(msi.node) if isinstance(n, ast.AugAssign) and isinstance(n.op, ast.Add) and unparse(n.target) == bufp]
+        order = [x for n, x in sorted(ext, key=lambda t: pos_of(t[0])) if pos_of(n) > pos_of(n_len)]
+        facts['after the length exactly the code and then the body are appended'] = order == [idv, bodyv] and len(ext) == 2
+        comp = [n for n in walk_local(msi.node) if isinstance(n, ast.Assign) and unparse(n.targets[0]) == bodyv and
+                (phas(n.value, f'zlib.compress({bodyv})') or phas(n.value, f'zlib.compress(bytes({bodyv}))'))]
+        facts['compression (when requested) replaces the body before the length is computed'] = len(comp) == 1 and pos_of(comp[0]) < pos_of(n_len) and \
+            any(pol and unparse(e) in [p_ for p_ in msi.params] for e, pol, _ in eng.guards_at(msi, comp[0]))
+    bad = [k for k, v in facts.items() if not v]
+    ck.ob('R-C01-FRAME', msi, msi.node, 'the length prefix is len(code) + len(body), followed by exactly those bytes; compression happens before the length is computed',
+          not bad, f'not established: {bad}', construct='frame length')
+    mde = md.methods['deserialize']
+    posp, msgp = [p_ for p_ in mde.params if p_ != 'cls'][:2]
+    facts = {}
+    rd = pfind(mde.node, f'{posp}, $id = type(cls.MESSAGE_ID).deserialize({posp}, {msgp})')
+    facts['the code is read with the width of the class MESSAGE_ID'] = len(rd) == 1
+    if rd:
+        idv = rd[0][1]['id']
+        facts['a code different from MESSAGE_ID is rejected (raise)'] = any(
+            any(pat.match(e, pat.compile_pattern(f'{idv} == cls.MESSAGE_ID')[0]) is not None and not pol or
+                pat.match(e, pat.compile_pattern(f'{idv} != cls.MESSAGE_ID')[0]) is not None and pol for e, pol, _ in eng.guards_at(mde, r))
+            for r in walk_local(mde.node) if isinstance(r, ast.Raise))
+    facts['the rest of the frame is decompressed when requested'] = phas(mde.node, f'zlib.decompress({msgp}[{posp}:])')
+    bad = [k for k, v in facts.items() if not v]
+    ck.ob('R-C01-FRAME', mde, mde.node, 'the reader checks the code against MESSAGE_ID (with its width) and decompresses the rest', not bad, f'not established: {bad}',
           construct='frame reader')
     enc = eng.func(CONN, 'DataConnection.encode_message_data')
     dec = eng.func(CONN, 'DataConnection.decode_message_data')
@@ -440,30 +585,63 @@ def run(eng: Engine, ck: Check):
     for x in calls_in(oe.node):
         if call_name(x) == 'rotate_key':
             enc_rot = const(kw(x, 'rot_bits')) if kw(x, 'rot_bits') is not None else rot_default
-            blk = [g for g in eng.guards_at(oe, x)]
-            per_block = any(pol and unparse(e).replace(' ', '') == 'idx%KEY_SIZE==0' for e, pol, _ in blk)
+            blk = [g for g in expanded_guards(eng, oe, x)]
+            per_block = any(pol and pat.match(e, pat.compile_pattern('$i % KEY_SIZE == 0')[0]) is not None for e, pol, _ in blk)
             ck.ob('R-C01-OBFUSC', oe, x, 'the encoder rotates the key once per KEY_SIZE bytes, before using it', per_block, f'{[unparse(e) for e, _, _ in blk]}',
                   construct='encoder rotation cadence')
     if enc_rot is None and not delegates:
         raise AnalysisError('R-C01-OBFUSC: obfuscation.encode neither rotates the key itself nor delegates to decode: idiom not recognised')
-    rksrc = unparse(rk.node)
-    ok = 'key_i >> rot_bits | key_i << 32 - rot_bits & 4294967295' in rksrc and "int.from_bytes(key, 'little')" in rksrc and "to_bytes(4, 'little')" in rksrc
-    ck.ob('R-C01-OBFUSC', rk, rk.node, 'rotate_key is a 32-bit rotate right on the little-endian key', ok, '', construct='rotate_key')
+    keyp, rotp = rk.params[0], rk.params[1]
+    rk_rets = [expand_aliases(rk, n.value, depth=4) for n in walk_local(rk.node) if isinstance(n, ast.Return) and n.value is not None]
+    K = f"int.from_bytes({keyp}, 'little')"
+    forms = [f"({K} >> {rotp} | {K} << 32 - {rotp} & 4294967295).to_bytes(4, 'little')",
+             f"(({K} >> {rotp} | {K} << 32 - {rotp}) & 4294967295).to_bytes(4, 'little')"]
+    ok = len(rk_rets) == 1 and any(pat.match(rk_rets[0], pat.compile_pattern(f_)[0]) is not None for f_ in forms)
+    ck.ob('R-C01-OBFUSC', rk, rk.node, 'rotate_key is a 32-bit rotate right on the little-endian key', ok,
+          f'returns `{unparse(rk_rets[0]) if rk_rets else None}`', construct='rotate_key')
     ck.ob('R-C01-OBFUSC', oe, oe.node, 'KEY_SIZE is 4 and the encoder rotates by 31 bits per block (= rotate left by 1), or applies the decoder\'s key stream',
           ks == 4 and (enc_rot == PROTO_ROT or (enc_rot is None and delegates)), f'KEY_SIZE={ks}, rot={enc_rot}, delegates to decode: {delegates}', construct='encoder constants')
-    loops = [n for n in walk_local(od.node) if isinstance(n, ast.For) and any(call_name(x) == 'rotate_key' for st in n.body for x in calls_in(st))]
+    rcalls = [x for x in calls_in(od.node) if call_name(x) == 'rotate_key']
     ka = single_assignments(od).get('key_amount')
-    if len(loops) != 1 or ks is None:
-        raise AnalysisError('R-C01-OBFUSC: key table loop of obfuscation.decode not recognised')
-    rot_arg = next((kw(x, 'rot_bits') or (x.args[1] if len(x.args) > 1 else None) for st in loops[0].body for x in calls_in(st) if call_name(x) == 'rotate_key'), None)
-    if rot_arg is None or unparse(rot_arg) != unparse(loops[0].target):
-        raise AnalysisError('R-C01-OBFUSC: the loop variable is not the rotation amount: idiom not recognised')
+    if len(rcalls) != 1 or ks is None:
+        raise AnalysisError('R-C01-OBFUSC: key table construction of obfuscation.decode not recognised (expected one rotate_key call)')
+    rot_arg = kw(rcalls[0], 'rot_bits') or (rcalls[0].args[1] if len(rcalls[0].args) > 1 else None)
+    binder = None      # the loop / comprehension clause that binds the rotation amount
+    table_name = None  # the local that receives the concatenated rotated keys
+    if isinstance(rot_arg, ast.Name):
+        for anc in ancestors(rcalls[0]):
+            if isinstance(anc, ast.For) and isinstance(anc.target, ast.Name) and anc.target.id == rot_arg.id:
+                binder = anc
+                ext = pfind(anc, 'rotate_key($$)')
+                for n, bd in pfind(anc, '$k.extend(rotate_key($$))'):
+                    table_name = bd['k']
+                for n in walk_local(anc):
+                    if isinstance(n, ast.AugAssign) and isinstance(n.op, ast.Add) and phas(n.value, 'rotate_key($$)'):
+                        table_name = unparse(n.target)
+                break
+            if isinstance(anc, (ast.GeneratorExp, ast.ListComp)) and len(anc.generators) == 1 and isinstance(anc.generators[0].target, ast.Name) \
+                    and anc.generators[0].target.id == rot_arg.id and anc.elt is rcalls[0]:
+                binder = anc.generators[0]
+                st_ = enclosing_stmt(anc)
+                if isinstance(st_, ast.Assign) and isinstance(st_.targets[0], ast.Name) and \
+                        (phas(st_.value, "b''.join($_)") or phas(st_.value, "bytes().join($_)") or phas(st_.value, "bytearray(b''.join($_))") or
+                         phas(st_.value, "bytearray().join($_)")):
+                    table_name = st_.targets[0].id
+                break
+            if isinstance(anc, ast.stmt) and not isinstance(anc, ast.For):
+                continue
+    if binder is None or table_name is None:
+        raise AnalysisError('R-C01-OBFUSC: the rotation amount is not bound by a loop/comprehension filling one key table: idiom not recognised')
+    loops = [binder]
+    sa_dec = single_assignments(od)
+    # locals that hold the payload (everything after the key): len() of them is the payload length
+    payload_names = {n_.targets[0].id for n_ in walk_local(od.node) if isinstance(n_, ast.Assign) and isinstance(n_.targets[0], ast.Name)
+                     and phas(n_.value, f'{od.params[0]}[KEY_SIZE:]')}
+    payload_names |= {f'{od.params[0]}[KEY_SIZE:]'}
     rng = loops[0].iter
     bad = []
     for msg_len in list(range(1, 140)) + [255, 256, 257, 1000]:
-        env = {'message_len': msg_len, 'KEY_SIZE': ks}
-        if ka is not None:
-            env['key_amount'] = safe_eval(ka, env)
+        env = {'KEY_SIZE': ks, '__sa__': sa_dec, '__len__': msg_len, '__payload__': payload_names}
         table = list(safe_eval(rng, env))
         blocks = math.ceil(msg_len / ks)
         # protocol: block j (0-based) is XOR-ed with the key rotated right (j+1)*31 mod 32 bits
@@ -471,13 +649,50 @@ def run(eng: Engine, ck: Check):
         stream_ok = bool(table) and all(table[j % len(table)] % 32 == ((j + 1) * PROTO_ROT) % 32 for j in range(blocks))
         if not stream_ok:
             bad.append((msg_len, table[:3] + ['...'] + table[-2:], len(table), len(want)))
-    ck.ob('R-C01-OBFUSC', od, loops[0], 'for every payload length the decoder\'s key table is the protocol\'s rotation sequence '
+    ck.ob('R-C01-OBFUSC', od, rcalls[0], 'for every payload length the decoder\'s key table is the protocol\'s rotation sequence '
           '(31, 30, ..., 0, repeating with period 32 = 128 bytes)', not bad,
           f'first mismatches (payload length, decoder table, its size, expected size): {bad[:3]}', construct='decoder key table == encoder sequence')
-    idx = [n for n in walk_local(od.node) if isinstance(n, ast.AugAssign) and isinstance(n.op, ast.BitXor)]
-    ok = len(idx) == 1 and unparse(idx[0]).replace(' ', '') == 'message[idx]^=full_key[idx%full_key_len]'
-    ck.ob('R-C01-OBFUSC', od, od.node, 'the decoder XORs byte i with key-table byte i mod table length', ok, '', construct='decoder xor')
-    ok = ("key[idx % KEY_SIZE] ^ byt" in unparse(oe.node) and 'orig_key + bytes(enc_message)' in unparse(oe.node)) or (enc_rot is None and delegates)
-    ck.ob('R-C01-OBFUSC', oe, oe.node, 'the encoder XORs byte i with key byte i mod KEY_SIZE and prepends the ORIGINAL key', ok, '', construct='encoder xor')
-    ok = 'key = data[:KEY_SIZE]' in unparse(od.node) and 'data[KEY_SIZE:]' in unparse(od.node)
-    ck.ob('R-C01-OBFUSC', od, od.node, 'the decoder takes the key from the first KEY_SIZE bytes', ok, '', construct='decoder key position')
+    datap = od.params[0]
+    sa_d = single_assignments(od)
+    xors = pfind(od.node, '$m[$i] ^= $k[$i % $n]')
+    nx = len([n for n in walk_local(od.node) if (isinstance(n, ast.AugAssign) or isinstance(n, ast.BinOp)) and isinstance(n.op, ast.BitXor)])
+    if not xors:
+        # expression form: (b ^ table[i % n] for i, b in enumerate(message))
+        for n, bd in pfind(od.node, '$b ^ $k[$i % $n]'):
+            comp = next((a_ for a_ in ancestors(n) if isinstance(a_, (ast.GeneratorExp, ast.ListComp))), None)
+            if comp is not None and len(comp.generators) == 1 and unparse(comp.generators[0].target) in (f"({bd['i']}, {bd['b']})", f"{bd['i']}, {bd['b']}") \
+                    and pat.match(comp.generators[0].iter, pat.compile_pattern('enumerate($m)')[0]) is not None:
+                xors.append((n, bd))
+    ok = len(xors) == 1 and nx == 1
+    if ok:
+        bd = xors[0][1]
+        nexp = sa_d.get(bd['n'])
+        ok = (nexp is not None and pat.match(nexp, pat.compile_pattern(f"len({bd['k']})")[0]) is not None) or bd['n'] == f"len({bd['k']})"
+        # the key table that is indexed is the one the rotation loop filled
+        ok = ok and bd['k'] == table_name
+    ck.ob('R-C01-OBFUSC', od, od.node, 'the decoder XORs byte i with key-table byte i mod table length (the table filled by the rotation loop)', ok, '',
+          construct='decoder xor')
+    if enc_rot is None and delegates:
+        ok = True
+    else:
+        ex = []
+        for n in walk_local(oe.node):
+            if isinstance(n, ast.BinOp) and isinstance(n.op, ast.BitXor):
+                m_ = pat.match(expand_aliases(oe, n), pat.compile_pattern('$k[$i % KEY_SIZE] ^ $b')[0])
+                if m_ is not None:
+                    ex.append((n, m_))
+        rets = [n.value for n in walk_local(oe.node) if isinstance(n, ast.Return) and n.value is not None]
+        sa_e = single_assignments(oe)
+        ok = len(ex) == 1 and len(rets) == 1 and isinstance(rets[0], ast.BinOp) and isinstance(rets[0].op, ast.Add) and isinstance(rets[0].left, ast.Name) and \
+            sa_e.get(rets[0].left.id) is not None and mentions_name(sa_e[rets[0].left.id], ex[0][1]['k']) and rets[0].left.id != ex[0][1]['k']
+        if ok:
+            # the saved key is taken before the first rotation
+            saved = next(n for n in walk_local(oe.node) if isinstance(n, ast.Assign) and unparse(n.targets[0]) == rets[0].left.id)
+            rots = [x for x in calls_in(oe.node) if call_name(x) == 'rotate_key']
+            ok = all((saved.lineno, saved.col_offset) < (x.lineno, x.col_offset) for x in rots)
+    ck.ob('R-C01-OBFUSC', oe, oe.node, 'the encoder XORs byte i with key byte i mod KEY_SIZE and prepends the ORIGINAL key (saved before the first rotation)', ok, '',
+          construct='encoder xor')
+    keyv = pfind(od.node, f'$key = {datap}[:KEY_SIZE]')
+    ok = len(keyv) == 1 and (phas(od.node, f'{datap}[KEY_SIZE:]')) and \
+        bool(rcalls[0].args) and unparse(rcalls[0].args[0]) == keyv[0][1]['key']
+    ck.ob('R-C01-OBFUSC', od, od.node, 'the decoder takes the key from the first KEY_SIZE bytes and the payload from the rest', ok, '', construct='decoder key position')
